@@ -272,7 +272,27 @@ func typeKey(t types.Type) string {
 	if t == nil {
 		return "?"
 	}
-	return types.TypeString(t, func(p *types.Package) string { return p.Name() })
+	return types.TypeString(unaliasDeep(t), func(p *types.Package) string { return p.Name() })
+}
+
+// unaliasDeep replaces type aliases (btcec.PublicKey = secp256k1.PublicKey) by
+// the types they denote, so that one object has one heap key.
+func unaliasDeep(t types.Type) types.Type {
+	switch x := t.(type) {
+	case *types.Alias:
+		return unaliasDeep(types.Unalias(x))
+	case *types.Pointer:
+		return types.NewPointer(unaliasDeep(x.Elem()))
+	case *types.Slice:
+		return types.NewSlice(unaliasDeep(x.Elem()))
+	case *types.Array:
+		return types.NewArray(unaliasDeep(x.Elem()), x.Len())
+	case *types.Chan:
+		return types.NewChan(x.Dir(), unaliasDeep(x.Elem()))
+	case *types.Map:
+		return types.NewMap(unaliasDeep(x.Key()), unaliasDeep(x.Elem()))
+	}
+	return t
 }
 
 type shapeMismatch struct{ a, b string }
